@@ -74,6 +74,10 @@ def run(ctx):
             jobs.append({"case": case, "variant": {"rot": rk, "unique": bool((idx + len(rk)) % 2)}, "seed": ctx.seed})
         if case["alg"] == "row" and len(case["sh"]) == 2 and case["sh"][0] == case["sh"][1]:
             jobs.append({"case": case, "variant": {"rot": "haar", "method": "mf"}, "seed": ctx.seed})
+        if case["alg"] == "col" and idx % 2 == 0:
+            # PT-TEMPO writing its process tensor (with the basis transforms) to a file that is imported again
+            jobs.append({"case": case, "variant": {"rot": "haar", "pt_roundtrip": ("simple", "file")[(idx // 2) % 2]},
+                         "seed": ctx.seed})
     results = core.pmap(eng.run_variant, jobs, chunksize=8)
     for job, res_ in zip(jobs, results):
         cid = eng.case_id(job["case"], job["variant"])
